@@ -55,7 +55,7 @@ CONFIG = {
 }
 REQUIRED = ['adjust_calls', 'params_formula_checked', 'rows_formula_checked', 'nonfinite_rows_dropped', 'params_with_own_nonfinite',
             'unused_summary_nonfinite_kept', 'unchanged_draws_checked', 'affine_params_checked', 'subset_parameter_cases',
-            'reordered_summary_cases', 'e2e_rejection_cases', 'compare_calls', 'compare_formula_checked', 'compare_sum_checked',
+            'reordered_summary_cases', 'e2e_rejection_cases', 'reused_adjustment_object_cases', 'compare_calls', 'compare_formula_checked', 'compare_sum_checked',
             'compare_permutation_checked', 'compare_mixed_shares', 'compare_with_priors', 'compare_integer_priors', 'compare_unequal_n_sim', 'compare_unequal_n_samples']
 
 
@@ -221,7 +221,25 @@ def _run_adjust(ctx, case):
     if any(int(v.sum()) < k + 2 for v in masks.values()):
         raise Skip('fewer finite rows than summaries + 2')      # out of domain (the regression is under-determined)
 
-    adj = adjust_posterior(sample, m, list(used_names), None if sel_names is None else list(sel_names))
+    kw_adj = {}
+    if case['seed'] % 3 == 0:
+        # a user-supplied adjustment object that was already fitted to ANOTHER sample (other slopes, other
+        # non-finite rows, all parameters): the answer for this sample must not depend on that history
+        from elfi.methods.post_processing import LinearAdjustment
+        user_adj = LinearAdjustment()
+        rg0 = np.random.default_rng(case['seed'] + 7)
+        X0 = off + sc * rg0.normal(size=(n, K))
+        out0 = {'d': np.sort(rg0.random(n))}
+        for j, s_ in enumerate(snames):
+            out0[s_] = X0[:, j].copy()
+        for p_ in pnames:
+            out0[p_] = rg0.normal(size=n) * 3.0 - 2.0 * (X0[:, used[0]] - off[used[0]]) / sc[used[0]]
+        out0[pnames[-1]][0] = np.nan
+        adjust_posterior(Sample('Rejection', out0, list(pnames), discrepancy_name='d', n_sim=10 * n, threshold=1.0), m, list(used_names),
+                         adjustment=user_adj)
+        kw_adj = {'adjustment': user_adj}
+        ctx.event('reused_adjustment_object_cases')
+    adj = adjust_posterior(sample, m, list(used_names), None if sel_names is None else list(sel_names), **kw_adj)
     ctx.event('adjust_calls')
     if sel_names is not None:
         ctx.event('subset_parameter_cases')
